@@ -16,7 +16,7 @@ pub struct F {
     pub case: Value,
 }
 
-fn run_case(route: &str, target: usize, with_head: bool, order: &[usize], sse: bool) -> (Vec<F>, String) {
+fn run_case(route: &str, target: usize, with_head: bool, order: &[usize], sse: bool, omit_ctx: bool) -> (Vec<F>, String) {
     let mut fs = vec![];
     let dir = common::scratch_dir("c06");
     let server = Server::start(dir);
@@ -26,7 +26,7 @@ fn run_case(route: &str, target: usize, with_head: bool, order: &[usize], sse: b
     let b = Scru128Id::from_u128(a.to_u128() + 1);
     store.insert_frame(&Frame::builder("xs.context", ZERO_CONTEXT).id(b).build()).unwrap();
     let ctxs = [ZERO_CONTEXT, a, b];
-    let case = json!({"route": route, "target_ctx": target, "head_exists": with_head, "foreign_order": order, "sse": sse});
+    let case = json!({"route": route, "target_ctx": target, "head_exists": with_head, "foreign_order": order, "sse": sse, "context_param_omitted": omit_ctx});
     if with_head {
         for c in &ctxs {
             store.append(Frame::builder("a", *c).build()).unwrap();
@@ -34,6 +34,8 @@ fn run_case(route: &str, target: usize, with_head: bool, order: &[usize], sse: b
     }
     let tctx = ctxs[target];
     let req = match route {
+        // without a `context` parameter the head route means the zero context
+        "head-follow" if omit_ctx => Req::new("GET", "/head/a?follow=true"),
         "head-follow" => Req::new("GET", &format!("/head/a?follow=true&context={}", tctx)),
         _ => {
             let r = Req::new("GET", &format!("/?follow=true&context-id={}", tctx));
@@ -104,7 +106,10 @@ pub fn cases() -> Vec<Value> {
                         if route == "head-follow" && sse {
                             continue;
                         }
-                        v.push(json!({"route": route, "target": target, "with_head": with_head, "order": order, "sse": sse}));
+                        v.push(json!({"route": route, "target": target, "with_head": with_head, "order": order, "sse": sse, "omit_ctx": false}));
+                        if route == "head-follow" && target == 0 {
+                            v.push(json!({"route": route, "target": target, "with_head": with_head, "order": order, "sse": sse, "omit_ctx": true}));
+                        }
                     }
                 }
             }
@@ -115,7 +120,7 @@ pub fn cases() -> Vec<Value> {
 
 pub fn run_case_json(c: &Value) -> (Vec<F>, String) {
     let order: Vec<usize> = serde_json::from_value(c["order"].clone()).unwrap();
-    run_case(c["route"].as_str().unwrap(), c["target"].as_u64().unwrap() as usize, c["with_head"].as_bool().unwrap(), &order, c["sse"].as_bool().unwrap())
+    run_case(c["route"].as_str().unwrap(), c["target"].as_u64().unwrap() as usize, c["with_head"].as_bool().unwrap(), &order, c["sse"].as_bool().unwrap(), c["omit_ctx"].as_bool().unwrap_or(false))
 }
 
 pub fn worker() {
